@@ -385,6 +385,11 @@ class C20(Property):
         "Flatland.C20.Proofs.update_object_atomic",
         "Flatland.C20.Proofs.updateObjectP_atomic",
         "Flatland.C20.Proofs.lazyUpdate_fails",
+        "Flatland.C20.Proofs.foldl_set_dictOf",
+        "Flatland.C20.Proofs.lazyUpdate_eq_on_success",
+        "Flatland.C20.Proofs.lazyLoop_selection_error",
+        "Flatland.C20.Proofs.lazyUpdate_differs_iff",
+        "Flatland.C20.Proofs.lazyUpdate_differs_emitted",
         "Flatland.C20.Proofs.writeAll_split",
         "Flatland.C20.Proofs.update_object_setattr_error",
         "Flatland.C20.Proofs.set_by_object_read_error_keeps_element",
